@@ -4,6 +4,7 @@
 use crate::util::{Rng, Stats};
 
 pub mod chan;
+pub mod life;
 pub mod param;
 pub mod storage;
 pub mod units;
@@ -18,6 +19,7 @@ pub fn gen(suite: &str, rng: &mut Rng, n: usize, thorough: bool, stats: &mut Sta
 		"units" => units::gen(rng, n, thorough, stats),
 		"param" => param::gen(rng, n, thorough, stats),
 		"chan" => chan::gen(rng, n, thorough, stats),
+		"life" => life::gen(rng, n, thorough, stats),
 		"storage" => storage::gen(rng, n, thorough, stats),
 		_ => panic!("unknown suite {}", suite),
 	}
@@ -28,6 +30,7 @@ pub fn run(suite: &str, ops: &[String]) -> Vec<String> {
 		"units" => units::run(ops),
 		"param" => param::run(ops),
 		"chan" => chan::run(ops),
+		"life" => life::run(ops),
 		"storage" => storage::run(ops),
 		_ => panic!("unknown suite {}", suite),
 	}
